@@ -1,7 +1,7 @@
 #!/bin/bash
 # usage: confirm_seed.sh <Cnn> [tag] — confirm a sub-agent's seeded change in its scratch worktree /var/tmp/mut/wt_<tag>:
 # builds, runs the unit tests, runs the demonstration with the modified and an unmodified binary.
-id="$1"; tag="${2:-$1}"; wt=/var/tmp/mut/wt_$tag; out=/var/tmp/mut/out_$tag
+id="$1"; tag="${2:-$1}"; base="${MUT:-/var/tmp/mut}"; wt=$base/wt_$tag; out=$base/out_$tag
 cd "$wt" || exit 2
 ( CARGO_NET_OFFLINE=true cargo build --offline 2>&1 | tail -1 )
 tests=$(CARGO_NET_OFFLINE=true cargo test --workspace --no-fail-fast --offline 2>&1 | grep -E "^test result" | head -1)
